@@ -166,6 +166,14 @@ def gen_batch(rng, din, raw, clean, kind='exact'):
             if rng.random() < .1 and raw:                                                                # target taken from the raw view (may include markup)
                 a = rng.randrange(len(raw)); t = raw[a:a + rng.randint(2, 12)]
                 if '\n' not in t: edits.append((t, 'rawrepl', None, None))
+        if acc and any(q in a for a in acc for q in '"“’\''):                                   # a quoted term / possessive named in the OTHER quote style (the smart-quote matcher stage); own generator, the main stream is not consumed
+            qr = random.Random(len(raw) * 7919 + len(edits))
+            qs = [m for a in acc for m in re.finditer(r'(?:["“]\w+["”]|\w+[\'’]s)(?: \w+)?', a)]
+            if qs and qr.random() < .7:
+                t = qr.choice(qs).group(0)
+                if any(ord(c) > 0x2000 for c in t): sw = t.translate({0x201c: '"', 0x201d: '"', 0x2019: "'"})
+                else: sw = re.sub(r'"(\w+)"', '“\\1”', t).replace("'", '’')
+                if sw != t: edits.append((sw, qr.choice(['quoted', sw + ' indeed', '']), qr.choice([None, 'q']), None))
         if raw and rng.random() < .15:                                                                   # the same target at the very start of the document twice (conflict at offset 0)
             m = re.match(r'[A-Za-z0-9\u00c0-\u024f]+', raw)
             if m and len(m.group(0)) >= 2: edits += [(m.group(0), m.group(0) + ' very', None, None)] * 2
@@ -189,6 +197,39 @@ def gen_batch(rng, din, raw, clean, kind='exact'):
 BLOCK_NEWS = ['{t}\nsecond line', '# Heading\nbody line', '## Sub {t}', 'line one\n\nline two', '{t}\n', '\n{t}', '# A\n#\nB',
               'x\r\n## H two\ny **b** z', '# Only', '#nospace\nnext', 'a\n# mid _i_\nb', '# **Bold** head\nplain _it_ line\n']
 # ----------------------------------------------------------------------------- running
+def quote_cases(rng, n=12):
+    """targeted documents for the smart-quote matcher stage: one term in typographic and in straight quotes in two paragraphs (either order), the
+    occurrence the edit names optionally split by another author's tracked deletion / insertion (then it is exact in the accepted view only, while the
+    quote-normalised raw-view search finds the OTHER paragraph first), the target in its own or in the other spelling"""
+    out = []
+    for k in range(n):
+        term = rng.choice(['Fee', 'Term', 'Goods']); verb = rng.choice(['shall', 'means', 'will'])
+        typo, plain = '“%s”' % term, '"%s"' % term
+        first_typo = k % 2 == 0; split = ['del', 'ins', None][(k // 2) % 3]; named = [plain, typo][(k // 6) % 2]
+        uid = [0]
+        def run(t): uid[0] += 1; return ['run', uid[0], None, [['t', t]]]
+        def para(pid, q):
+            nodes = [run('The %s ' % q)]
+            if q == named and split == 'del':
+                uid[0] += 2; nodes.append(['del', uid[0], ['7', 'Earlier Reviewer', '2024-01-01T00:00:00Z'], [['run', uid[0] - 1, None, [['dt', 'not ']]]]])
+            if q == named and split == 'ins':
+                uid[0] += 2; nodes.append(['ins', uid[0], ['7', 'Earlier Reviewer', '2024-01-01T00:00:00Z'], [['run', uid[0] - 1, None, [['t', 'hereby ']]]]])
+            nodes.append(run('%s be paid monthly%d.' % (verb, pid)))
+            return {'t': 'p', 'pid': pid, 'ppr': 0, 'style': ['N', False], 'nodes': nodes}
+        qs = [typo, plain] if first_typo else [plain, typo]
+        blocks = [para(1, qs[0]), para(2, qs[1])]
+        if k % 4 == 3:
+            # the term stands in ONE spelling only, first inside another author's tracked deletion, then in live text; the target names it in the other
+            # spelling: the exact stage finds nothing, the quote stage must pass over the deleted occurrence and take the live one
+            other = plain if named == typo else typo; uid[0] += 2
+            gone = {'t': 'p', 'pid': 1, 'ppr': 0, 'style': ['N', False], 'nodes': [run('Before '), ['del', uid[0], ['8', 'Earlier Reviewer', '2024-01-01T00:00:00Z'], [['run', uid[0] - 1, None, [['dt', '%s %s ' % (other, verb)]]]]], run('after.')]}
+            split = None; blocks = [gone, {'t': 'p', 'pid': 2, 'ppr': 0, 'style': ['N', False], 'nodes': [run('The %s %s be paid monthly2.' % (other, verb))]}]
+        d = {'stories': [{'kind': 1, 'blocks': blocks}], 'comments': [], 'next_uid': uid[0] + 1000, 'rpr_table': docgen.Gen(rng).table_list(), 'style_ids': 'en', 'features': ['quote_pair']}
+        # the target as the reader of the accepted view sees it (a pending insertion is part of that text, a deletion is not)
+        t = '%s %s%s' % (named, 'hereby ' if split == 'ins' else '', verb)
+        out.append((d, [(t, t.replace(verb, 'must'), rng.choice([None, 'q']), None)]))
+    return out
+
 def work(job):
     b, edits = job
     return docrun.engine_edits(b, edits, AUTHOR)
@@ -217,6 +258,7 @@ def correspondence(ck, c):
     case = case_of(c)
     if m[0] != 'ERR' and m[2]: c['outside'] = m[2]
     if r['err']: return 'impl_error'
+    if hasattr(ck, 'cov'): ck.cov['matcher_calls_answered_by_the_modelled_quote_stage'] = ck.cov.get('matcher_calls_answered_by_the_modelled_quote_stage', 0) + r.get('qhits', 0)
     if 'CONTRACT' in r['oracle']:
         ck.corr_broken.append(('matcher contract: find_match_index returned an out-of-range result', case)); return 'broken'
     if 'CONTRACT2' in r['oracle']:
@@ -348,7 +390,7 @@ def oracle_C08(c):
         if tape_nopid(dout) != tape_nopid(c['din']): return 'every edit was skipped but the content changed: ' + json.dumps(docrun.first_diff(tape_nopid(c['din']), tape_nopid(dout)))[:500]
         if docrun.comments_key(dout) != docrun.comments_key(c['din']): return 'every edit was skipped but comments changed'
     acc_in = ''.join(x + '\n' for x in para_texts(c['din'], 'acc')); acc_out = ''.join(x + '\n' for x in para_texts(dout, 'acc'))
-    if all('\n' not in (e[1] or '') and not (e[1] or '').startswith('#') for e in c['edits']) and n <= 5 and all(o is None for o in r['oracle']):
+    if all('\n' not in (e[1] or '') and not (e[1] or '').startswith('#') for e in c['edits']) and n <= 5 and all(o is None for o in r['oracle']) and not r.get('qhits'):
         # (only when no edit was located by the quote-normalising / Markdown-stripping / fuzzy stages: those apply the edit at a place plain string search cannot name)
         ok = False
         for k in range(n + 1):
